@@ -166,7 +166,7 @@ def _(em, obj, ot, args, e):
 @lib(('queue', 'push'))
 def _(em, obj, ot, args, e): return f"Y_QUEUE_PUSH_{em.cn(ot)}({loc_of(em, obj)}, {em.ex(args[0])})"
 @lib(('queue', 'try_pop'))
-def _(em, obj, ot, args, e): return f"Y_QUEUE_TRY_POP_{em.cn(ot)}({loc_of(em, obj)}, {em.addr(args[0])})"
+def _(em, obj, ot, args, e): return f"Y_QUEUE_TRY_POP({em.cn(ot)}, {loc_of(em, obj)}, {em.addr(args[0])})"
 @lib(('queue', 'empty'))
 def _(em, obj, ot, args, e): return f"Y_QUEUE_EMPTY_{em.cn(ot)}({loc_of(em, obj)})"
 
